@@ -35,7 +35,7 @@ BOUNDS = {
     'quick': 'data widths 1..2; n-ary gates arity 1..4; AndBits/OrBits/Bits* widths 1..4; Mux/Demux/'
              'Decoder k 1..2; one-hot selectors / SelectDefault / PriorityEncoder 1..3 ways; Minterm 1..3 bits, '
              'EqualConstant/NotEqualConstant widths 1..3, every constant; SumOfMinterms every subset at w<=2; '
-             'Bit/Range every index (pair) at w<=3; Concatenate* every split of <=3 bits into <=3 parts; '
+             'Bit/Range every index (pair) at w<=3, Range also into results 1 and 2 bits wider than the field; Concatenate* every split of <=3 bits into <=3 parts; '
              'comparators widths 1..2 (+ mixed 1/2); AnyEqual 1..3 inputs',
     'thorough': 'data widths 1..3; n-ary gates arity 1..5; AndBits/OrBits/Bits* widths 1..5; Mux k 1..3 (k=3 only '
                 'for w<=2: 2^19 vectors), Demux/Decoder k 1..3 (Decoder also k=4); one-hot selectors / SelectDefault '
